@@ -350,6 +350,20 @@ func (x *Exec) appendCall(e *ast.CallExpr, st *State) Value {
 				}
 			}
 			n = x.idxAdd(n, src.Len)
+		} else if x.ar.BV {
+			// bv theory avoids quantifiers: copy up to 16 elements under guards;
+			// the bound is an obligation
+			bound := x.ar.le(src.Len, x.ar.idxC(16), idxII)
+			x.oblige(st, "append", x.site("appendbound", e), "", bound, e.Pos())
+			st.add(bound)
+			for i := int64(0); i < 16; i++ {
+				in := x.ar.lt(x.ar.idxC(i), src.Len, idxII)
+				pos := x.idxAdd(x.idxAdd(base.Off, n), x.ar.idxC(i))
+				for k := range comps {
+					comps[k] = Store(comps[k], pos, Ite(in, Select(sc[k], x.idxAdd(src.Off, x.ar.idxC(i))), Select(comps[k], pos)))
+				}
+			}
+			n = x.idxAdd(n, src.Len)
 		} else {
 			// fresh arrays constrained pointwise
 			nc := make([]*Term, len(comps))
@@ -722,6 +736,24 @@ func (x *Exec) applyModifies(st *State, c *Contract, fn *types.Func, env map[str
 		case mod == "":
 		case mod == "*":
 			x.havocHeapAll(st)
+		case strings.Contains(mod, "@"):
+			// p@T.f : field f of the *T that p (an interface or pointer) refers to
+			i := strings.Index(mod, "@")
+			pname, tf := mod[:i], mod[i+1:]
+			b, ok := env[pname]
+			key, ft := x.typedFieldKey(c.Pkg, tf)
+			if ft == nil {
+				x.fail(token.NoPos, "contract %s: bad modifies %q", c.Key, mod)
+				continue
+			}
+			if !ok {
+				// not a plain parameter (e.g. elements of a slice of pointers):
+				// the field may change on every object
+				x.noteWrite(key, nil)
+				x.havocHeapKey(st, key)
+				continue
+			}
+			x.havocHeapAt(st, key, ft, x.scalarOf(b.v, nil))
 		case strings.HasSuffix(mod, "[*]"):
 			pname := strings.TrimSuffix(mod, "[*]")
 			b, ok := env[pname]
@@ -751,6 +783,18 @@ func (x *Exec) applyModifies(st *State, c *Contract, fn *types.Func, env map[str
 			i := strings.Index(mod, ".")
 			if i < 0 {
 				x.fail(token.NoPos, "contract %s: bad modifies %q", c.Key, mod)
+				continue
+			}
+			if j := strings.LastIndex(mod, ".#"); j > i {
+				// <path>.#g : ghost g of the object the path expression denotes
+				pe, err := parseContractExpr(mod[:j])
+				if err != nil {
+					x.fail(token.NoPos, "contract %s: bad modifies %q", c.Key, mod)
+					continue
+				}
+				cx := &cctx{x: x, st: st, old: st, env: env, callee: c}
+				r := cx.eval(pe)
+				x.havocGhostAt(st, mod[j+2:], cbind{r.v, r.t})
 				continue
 			}
 			pname, f := mod[:i], mod[i+1:]
@@ -801,6 +845,7 @@ func (x *Exec) applyModifies(st *State, c *Contract, fn *types.Func, env map[str
 // havocHeapAt: every component of field key at object p gets an unknown
 // value; other objects keep theirs.
 func (x *Exec) havocHeapAt(st *State, key string, ft types.Type, p *Term) {
+	x.noteWrite(key, p)
 	for _, c := range x.layout(ft) {
 		k := key + c.Suffix
 		arr := x.heapGet(st, k, ArrSort(IntSort, c.S))
